@@ -44,10 +44,25 @@ static CaseResult run_case(Tape &t)
 	Outcome o2 = roundtrip(c2, p, (uint16_t)(1 + t.below(65535)));
 	int k2 = classify(p, o2);
 	if (r.ok && k2 != 3 && (k2 != k || o2.out.size() != o.out.size())) r.fail("C09:depends-on-query-name", "the same payload in the same answer format is extracted differently for another query-name length: " + r.render + " | " + conf_str(c2) + " -> rv=" + std::to_string(o2.rv));
+	// An answer cut short in transit (a relay that truncates UDP replies) leaves nothing behind in the client: the next intact answer is
+	// extracted exactly as before.  (What the client makes of the cut answer itself is not judged; it is not the server's answer.)
+	bool cut_case = false;
+	if (t.chance(1, 2)) {
+		size_t blen = std::min<size_t>(4096, len + (size_t)t.range(60, 1800));
+		Bytes big = content(blen, (int)t.below(2), t.u32());
+		int cut = t.range(150, 990);
+		Outcome ob = roundtrip(c, big, (uint16_t)(1 + t.below(65535)), cut);
+		if (r.ok && ob.rv == -777) r.fail("C09:overrun-on-cut-answer", "the client wrote past the caller's buffer while reading an answer cut short in transit: " + r.render);
+		Outcome o3 = roundtrip(c, p, (uint16_t)(1 + t.below(65535)));
+		int k3 = classify(p, o3);
+		cut_case = true;
+		if (r.ok && (k3 != k || o3.out.size() != o.out.size())) r.fail(std::string("C09:depends-on-previous-reply:type=") + QTN[c.qt], "after an answer of " + std::to_string(blen) + " payload bytes that was cut short in transit (" + std::to_string(cut) + " per mille of its records arrived) the same payload in the same answer format is extracted differently: " + r.render + " -> then rv=" + std::to_string(o3.rv) + " got=" + hexs(o3.out, 40));
+	}
 	bool multi = (c.qt == 2 && len > 150) || ((c.qt == 3 || c.qt == 4) && len > 140) || len > 34;
 	r.nontrivial = multi;
 	r.cls(std::string("type:") + QTN[c.qt]); r.cls(std::string("codec:") + DE[c.de]);
 	r.cls(k == 0 ? "exact" : (k == 1 ? "nothing" : "prefix"));
+	if (cut_case) r.cls("after-an-answer-cut-short-in-transit");
 	return r;
 }
 
